@@ -2,6 +2,7 @@ package PVM
 
 import (
 	"bytes"
+	"math"
 
 	"github.com/New-JAMneration/JAM-Protocol/internal/service_account"
 	"github.com/New-JAMneration/JAM-Protocol/internal/types"
@@ -550,6 +551,14 @@ func eject(input OmegaInput) (output OmegaOutput) {
 	if lookupDataLength == 2 {
 		if int(lookupData[1]) < int(timeslot)-int(types.TimeSlot(types.UnreferencedPreimageTimeslots)) {
 			if accountS, accountSExists := input.Addition.ResultContextX.PartialState.ServiceAccounts[serviceID]; accountSExists {
+				// s'_b = (x_s)_b + d_b is a sum of naturals: refuse rather than wrap around 2^64
+				if accountS.ServiceInfo.Balance > math.MaxUint64-accountD.ServiceInfo.Balance {
+					input.VM.Registers[7] = HUH
+					return OmegaOutput{
+						ExitReason: ExitContinue,
+						Addition:   input.Addition,
+					}
+				}
 
 				accountS.ServiceInfo.Balance += accountD.ServiceInfo.Balance // s'_b
 				input.Addition.ResultContextX.PartialState.ServiceAccounts[serviceID] = accountS
